@@ -1,6 +1,7 @@
 import TantivyModel.Proofs.Store.Codec
 import TantivyModel.Proofs.Store.Cache
 import TantivyModel.Proofs.Store.SkipIndex
+import TantivyModel.Proofs.Store.Writer
 /-!
 # C09 — Stored documents are returned exactly as they were added
 
@@ -112,6 +113,45 @@ theorem C09_skip_index_seek_empty_store (P d : Nat) :
     seek (finishedLayers P []) d = some { docStart := 0, docEnd := 1, byteStart := 0, byteEnd := 0 } := by
   simp [finishedLayers, buildLayers, finishLayers, seek, seekLoop, seekInit]
 
+/-! ### writer → file → reader -/
+
+/-- `get (write docs) i = docs[i]` for every block size, every document size (larger than a block
+included), every codec with the round-trip contract; beyond the last document `get` fails.
+`K` is the per-document index estimate of `check_flush_block`, `P` the checkpoint period.
+The dedicated compressor thread executes the same call sequence (FIFO channel), so the statement
+covers both settings. Sizes are bounded only by the u32 offsets inside a block. -/
+theorem C09_store_get (C : Compression) (hC : GoodCompression C) (K P bs : Nat) (hK : 1 ≤ K) (hP : 2 ≤ P)
+    (hbs : bs < 4294967296) (docs : List Bytes) (hne : docs ≠ [])
+    (hall : ∀ d ∈ docs, d ≠ [] ∧ bs + d.length < 4294967296) (i : Nat) :
+    getBytes C (writtenStore C K P bs docs) i = docs[i]? := by
+  obtain ⟨groups, hflat, hl, hg⟩ := written_laid C K hK bs docs hall hbs
+  have hgne : groups ≠ [] := by
+    intro h; rw [h] at hflat; exact hne hflat.symm
+  have := getBytes_laid C hC.roundtrip P hP groups _ _ hl hg hgne (writtenStore C K P bs docs) rfl rfl i
+  rw [this, hflat]
+
+/-- `StoreReader::open` of what `StoreWriter::close` wrote is the store above (footer, offset of
+the skip index, decompressor id, version) -/
+theorem C09_store_open_close (C : Compression) (K P bs : Nat) (docs : List Bytes) (hid : C.id < 256)
+    (hlen : ((docs.foldl (Writer.storeBytes C K) (Writer.new bs)).sendBlock C).written.length < 2 ^ 64) :
+    openStore (writeStore C K P bs docs) = some (writtenStore C K P bs docs) :=
+  openStore_close C P _ hid hlen
+
+/-- the same, end to end on documents: adding documents and fetching by doc id returns exactly the
+stored view of each (instance with the extracted constants) -/
+theorem C09_store_get_doc (C : Compression) (hC : GoodCompression C) (bs : Nat) (hbs : bs < 4294967296)
+    (isStored : BitVec 32 → Bool) (added : List (List (BitVec 32 × FieldInput))) (hne : added ≠ [])
+    (hfit : ∀ d ∈ added, bs + (serializeDoc isStored d).length < 4294967296) (i : Nat) (hi : i < added.length) :
+    getDoc C (writtenStore C Gen.STORE_INDEX_ENTRY_COST Gen.CHECKPOINT_PERIOD bs (added.map (serializeDoc isStored))) i
+      = some (storedView isStored added[i]) := by
+  unfold getDoc
+  rw [C09_store_get C hC _ _ bs (by decide) (by decide) hbs _ (by simpa using hne)]
+  · simp only [List.getElem?_map, List.getElem?_eq_getElem hi, Option.map_some, Option.bind_some]
+    exact C09_doc_codec_roundtrip isStored _
+  · intro d hd
+    obtain ⟨a, ha, rfl⟩ := List.mem_map.mp hd
+    exact ⟨C09_serialized_doc_nonempty isStored a, hfit a ha⟩
+
 /-! ### block cache -/
 
 /-- for every access sequence and every capacity (0 included), reading through the LRU block cache
@@ -150,5 +190,12 @@ example : ChainFrom 0 0 exampleCheckpoints := by decide +kernel
 example : (finishedLayers 8 exampleCheckpoints).length = 3 := by decide
 example : seek (finishedLayers 8 exampleCheckpoints) 64
     = some { docStart := 64, docEnd := 65, byteStart := 192, byteEnd := 195 } := by decide +kernel
+
+/-- three documents, block size 9: the second document is larger than a block -/
+example : getBytes Compression.none (writtenStore Compression.none 8 8 9 [[1], [2, 3, 4, 5, 6, 7, 8, 9, 10, 11, 12], [13, 14]]) 1
+    = some [2, 3, 4, 5, 6, 7, 8, 9, 10, 11, 12] := by decide +kernel
+example : ((([[1], [2, 3, 4, 5, 6, 7, 8, 9, 10, 11, 12], [13, 14]] : List Bytes).foldl
+    (Writer.storeBytes Compression.none 8) (Writer.new 9)).sendBlock Compression.none).checkpoints.length = 2 := by
+  decide +kernel
 
 end TantivyModel.C09
